@@ -619,6 +619,12 @@ def rel_C07(col, how, make):
             if readable != ([sel] if sel else ["count", "label", "flag", "leaf"]) and not (sel == "" and readable == []):
                 if sel and readable != [sel]:
                     col.fail("readable-members-differ-from-selection", how + f" [{stage}]", f"which_one_of={sel!r} readable={readable}")
+            for idv in (False, True):
+                d = guard(col, "to_dict", how + f" [{stage}]", lambda: c.to_dict(include_default_values=idv))
+                if d is not None:
+                    named = sorted(k for k in d if k in ("count", "label", "flag", "leaf"))
+                    if named != ([sel] if sel else []):
+                        col.fail("json-names-other-members-of-the-group", how + f" [{stage}] include_default_values={idv}", f"which_one_of={sel!r} json={d}")
             r = ref("Choice")()
             try:
                 r.ParseFromString(bytes(c))
@@ -646,6 +652,64 @@ def rel_C04(col, how, make):
                 col.fail(f"{label}-changes-the-message", how + f" [{cname}]", f"dict={d} bytes {bytes(make()).hex()} -> {bytes(b).hex()}")
             elif not same(b, make()):
                 col.fail(f"{label}-changes-observable-state", how + f" [{cname}]", f"dict={d} {norm(obs(make()))} -> {norm(obs(b))}")
+
+
+def rel_C04_more(col, how, make):
+    m = make()
+    if nested_unknown(m) or m._unknown_fields:
+        return
+    # (from_pydict is not part of any listed property: to_pydict is only checked for purity, under C14)
+    for cname, casing in (("CAMEL", betterproto.Casing.CAMEL), ("SNAKE", betterproto.Casing.SNAKE)):
+        d = guard(col, "to_dict-with-defaults", how, lambda: m.to_dict(casing=casing, include_default_values=True))
+        if d is None:
+            continue
+        try:
+            text = json.dumps(d)
+        except Exception as e:
+            col.fail("to_dict-with-defaults-not-json", how + f" [{cname}]", str(e))
+            continue
+        b = guard(col, "from_json-of-dict-with-defaults", how, lambda: Deep().from_json(text))
+        if b is None:
+            continue
+        # defaults written explicitly may make absent sub-messages present (that is what "include defaults" means),
+        # but every value and every oneof selection must survive
+        o, n = make(), b
+        for name in ("m_choice", "r_choice", "m_f", "m_d", "r_d"):
+            if json.dumps(value_view(getattr(o, name)), sort_keys=True, default=str) != json.dumps(value_view(getattr(n, name)), sort_keys=True, default=str):
+                col.fail("dict-with-defaults-changes-a-container", how + f" [{cname}] {name}", f"{value_view(getattr(o, name))} -> {value_view(getattr(n, name))}")
+        if betterproto.which_one_of(o.one, "pick")[0] and betterproto.serialized_on_wire(o.one) and \
+                betterproto.which_one_of(o.one, "pick") != betterproto.which_one_of(n.one, "pick"):
+            col.fail("dict-with-defaults-changes-a-oneof", how + f" [{cname}]", f"{betterproto.which_one_of(o.one, 'pick')} -> {betterproto.which_one_of(n.one, 'pick')}")
+
+
+def rel_merge(col, rnd, pairs):
+    """parse() into a message that already holds values merges like the reference's MergeFromString"""
+    for (ha, ma), (hb, mb) in pairs:
+        how = f"a = {ha}; a.parse(bytes({hb}))"
+        col.cases += 1
+        col.distinct.add(how)
+        a, b = ma(), mb()
+        if nested_unknown(a) or nested_unknown(b) or a._unknown_fields or b._unknown_fields:
+            continue
+        try:
+            ra, rb = to_ref(a), to_ref(b)
+        except Exception:
+            continue
+        wire = bytes(b)
+        got = guard(col, "merge-parse", how, lambda: a.parse(wire))
+        if got is None:
+            continue
+        ra.MergeFromString(rb.SerializeToString(deterministic=True))
+        exp = ra.SerializeToString(deterministic=True)
+        r2 = ref("Deep")()
+        try:
+            r2.ParseFromString(bytes(a))
+        except Exception as e:
+            col.fail("merge-result-not-decodable", how, str(e))
+            continue
+        floats_nan = any(isinstance(x, float) and x != x for x in list(a.m_f.values()) + list(a.m_d.values()) + list(a.r_d))
+        if r2.SerializeToString(deterministic=True) != exp and not floats_nan:
+            col.fail("merge-differs-from-reference", how, f"ours {bytes(a).hex()} reference {exp.hex()}")
 
 
 def rel_C14(col, how, make):
@@ -767,6 +831,17 @@ def main(argv=None):
                 col.fail("harness:" + type(e).__name__, how, traceback.format_exc()[-400:])
             if len(col.samples) < 3 and col.cases % 17 == 3:
                 col.samples.append({"instance": how, "bytes": bytes(make()).hex()})
+        if a.prop == "C04":
+            for how, make in instances(rnd, a.n):
+                try:
+                    rel_C04_more(col, how, make)
+                except Exception as e:
+                    col.fail("harness:" + type(e).__name__, how, traceback.format_exc()[-400:])
+        if a.prop in ("C01", "C02"):
+            inst = instances(rnd, a.n)
+            base = inst[:120]
+            pairs = [(rnd.choice(base), rnd.choice(base)) for _ in range(a.n)]
+            rel_merge(col, rnd, pairs)
         if a.prop == "C06":
             assign_histories(col)
         if a.prop in ("C07", "C14"):
